@@ -17,6 +17,7 @@ import time
 
 from .. import tlc
 from .. import session_driver as sd
+from .. import session_trace
 from ..session_replay import SessionReplayer
 
 LEVEL = "fault_enumeration"
@@ -167,6 +168,10 @@ def run(ctx):
     n3 = simulate(ctx, rep, "c17", 120 if quick else 500, 14 if quick else 24, 3, observers, found)
     n_replayed = n1 + n2 + n3
     ctx.cov["traces_validated_against_impl"] = n_replayed
+    # 4. the other direction (B2): executions composed by the library itself (ConfigLoader entry points, also with
+    #    injected faults) and seeded user sessions are recorded and validated by TLC against Session.tla
+    #    (spec/SessionTrace.tla; notes/C17_trace.md)
+    session_trace.run(ctx)
     for sig, d in sorted(found.items()):
         ctx.violation("%s:%s" % (d["observer"], d["history"]), d)
     ctx.cov["rule"] = (
@@ -187,6 +192,8 @@ def replay(ctx, path):
     with open(path) as f:
         j = json.load(f)
     d = j["detail"]
+    if str(j.get("key", "")).startswith("trace:"):
+        return session_trace.replay(ctx, path)
     if "path" not in d:
         return run(ctx)
     steps = [tuple(x) for x in tlc.from_jsonable(d["path"])]
